@@ -58,7 +58,12 @@ func runC10(c *Ctx) {
 	if h.has("kerberos") {
 		tw.Cfg.Keytab = c.W.WriteKeytab("HTTP/gw.test", "CORP.TEST", "service-password")
 		tw.Cfg.Krb5Conf = c.W.WriteKrb5Conf("CORP.TEST", map[string][]string{"CORP.TEST": {"kdc1.corp.test:88"}})
-		c.W.AddKDC("tcp", "kdc1.corp.test:88", "reply-close", []byte{0, 0, 0, 2, 1, 2})
+		// the realm's KDC answers properly, or with something that is not a framed reply
+		if c.T.Bool(1, 2) {
+			c.W.AddKDC("tcp", "kdc1.corp.test:88", "reply-close", []byte{0, 0, 0, 2, 1, 2})
+		} else {
+			c.W.AddKDC("tcp", "kdc1.corp.test:88", "garbage", [][]byte{{0x80 | byte(c.T.Choose(128)), 0xff, 1, 2, 3, 4}, {0xff, 0xff, 0xff, 0xff}, []byte("HTTP/1.1 400 Bad Request\r\n\r\n"), {0x7f, 0xff, 0xff, 0xff, 9}}[c.T.Choose(4)])
+		}
 	}
 	if c.T.Bool(1, 3) {
 		tw.Cfg.SendBuf, tw.Cfg.ReceiveBuf = 65536, 65536
@@ -159,7 +164,19 @@ func (h *hostileCtx) hostileInput() string {
 		t1 := codec.NTLMNegotiate()
 		nt, lm, sbk := codec.NTLMv2Response("alice", "x", "", []byte("12345678"), []byte("abcdefgh"), []byte{0, 0, 0, 0}, time.Now())
 		t3 := codec.NTLMAuthenticate("alice", "", "WS", nt, lm, sbk)
-		switch t.Choose(10) {
+		switch t.Choose(12) {
+		case 6, 10:
+			// a well-formed authenticate message in one of the shorter layouts (without MIC,
+			// without Version and MIC, or without session key and flags, as older clients send them), for an existing or unknown user,
+			// with or without the session-key field
+			user := []string{"alice", "alice", "nobody"}[t.Choose(3)]
+			ek := []byte("0123456789abcdef")
+			if t.Bool(1, 2) {
+				ek = nil
+			}
+			form := 1 + t.Choose(3)
+			msg = codec.NTLMAuthenticateForm(user, "", "WS", nt, lm, codec.NTLMDefaultFlags, ek, form)
+			kind = fmt.Sprintf("type3-short-layout-%d(%s,key=%d)", form, user, len(ek))
 		case 7, 8:
 			// a proper message with one to three random bytes changed, possibly cut short
 			src, name := t1, "type1"
@@ -312,7 +329,11 @@ func (h *hostileCtx) hostileInput() string {
 		return "websocket:" + kind
 	case 7: // KDC-proxy bodies
 		body := t.Bytes(t.Choose(300), 9)
-		switch t.Choose(5) {
+		switch t.Choose(7) {
+		case 5, 6:
+			// a well-formed request (what the KDC makes of it is the KDC's business)
+			pl := t.Bytes(1+t.Choose(200), 7)
+			body = codec.KDCProxyMessage(append([]byte{0, 0, byte(len(pl) >> 8), byte(len(pl))}, pl...), "", false)
 		case 0:
 			body = codec.KDCProxyMessage(nil, "", false)
 		case 1:
